@@ -38,7 +38,10 @@ func (my *cbcCipher) Decrypt(input []byte) []byte {
 func pkcs5Padding(ciphertext []byte, blockSize int) []byte {
 	var padding = blockSize - len(ciphertext)%blockSize
 	var padText = bytes.Repeat([]byte{byte(padding)}, padding)
-	return append(ciphertext, padText...)
+	// copy into a fresh buffer: append() would write into the spare capacity of the caller's slice
+	var padded = make([]byte, 0, len(ciphertext)+padding)
+	padded = append(padded, ciphertext...)
+	return append(padded, padText...)
 }
 
 // trim padding tail
